@@ -48,4 +48,18 @@ package hashprefix
 //@   ensures len(data) == 8 + 32 * len(item.hashes)
 //@   loop 1 invariant len(data) == 8 + 32 * #i && 0 <= #i && #i <= len(item.hashes)
 
+// Every TXT string of the answer is examined (malformed ones are skipped, never abort the scan), and every TXT record
+// of the answer section is processed.
+//@ func (c *Checker) appendHashesFromTXT(hashes []hostnameHash, txt *dns.TXT, host string) (receivedHashes []hostnameHash)
+//@   property C19
+//@   modifies *
+//@   ensures len(receivedHashes) >= len(hashes)
+//@   loop 1 complete
+//@   loop 1 invariant len(hashes) >= len(hashes0)
+
+//@ func (c *Checker) processAnswer(hashesToRequest []hostnameHash, resp *dns.Msg, host string) (matched bool, receivedHashes []hostnameHash)
+//@   property C19
+//@   modifies *
+//@   loop 1 complete
+
 //@ sweep C19 (github.com/AdguardTeam/dnsproxy/upstream.Upstream).Exchange
